@@ -103,3 +103,14 @@ Example request_selects :
   run_request fixed ex_schema ex_request (nm "C") ex_env ex_fuel ex_W = Done None [ {| e_path := []; e_locs := [] |} ] /\
   run_request fixed ex_schema ex_request (nm "A") ex_env ex_fuel ex_W = run fixed ex_schema ex_doc ex_env ex_fuel ex_W.
 Proof. vm_compute. repeat split; reflexivity. Qed.
+
+(** stage B: the recursive key-order predicate is inhabited by the example's data *)
+From ApiFu Require Import Exe.ExecKeyOrder Exe.ExecKeyOrderProofs.
+Example instance_ordered :
+  exists kvs, ordered_obj ex_schema ex_doc ex_env ex_fuel (nm "Q") (op_sels ex_doc) kvs /\ List.length kvs = 5%nat.
+Proof.
+  destruct hypotheses_hold as [Hd [Hn Hp]].
+  destruct (exec_data_ordered ex_schema ex_doc ex_env ex_fuel ex_fuel ex_W _ _ Hn Hp Hd response) as [rt [kvs [Hrt [Hj Ho]]]].
+  vm_compute in Hrt. inversion Hrt; subst rt. inversion Hj; subst kvs.
+  eexists. split; [exact Ho|reflexivity].
+Qed.
